@@ -13,6 +13,7 @@ import (
 
 	"github.com/beevik/etree"
 	saml2 "github.com/russellhaering/gosaml2"
+	"github.com/russellhaering/gosaml2/types"
 	dsig "github.com/russellhaering/goxmldsig"
 	"pgregory.net/rapid"
 
@@ -585,6 +586,31 @@ func checkC13(c OutCase) h.Outcome {
 	if !bytes.Equal(reported, want.DER()) {
 		o.Violation = h.V("reported-cert-precedence/enc:"+c.SP.Enc.Mode+"/sig:"+c.SP.Sig.Mode, "GetSigningCertBytes reports a certificate other than %v", want)
 		return o
+	}
+	// ... and the one it PUBLISHES in its metadata (both variants), whatever SignAuthnRequests says: logout messages
+	// are signed regardless of that flag, and a peer verifies them with the published certificate
+	for vi, get := range []func() (*types.EntityDescriptor, error){sp.Metadata, func() (*types.EntityDescriptor, error) { return sp.MetadataWithSLO(24) }} {
+		md, merr := get()
+		if merr != nil && c.SP.Enc.None() {
+			// without an encryption key the library produces no metadata at all ("empty SP encryption certificate"):
+			// nothing is published, so nothing can be published wrongly
+			o.Classes = append(o.Classes, "metadata:none-without-encryption-key")
+			break
+		}
+		if merr != nil || md == nil || md.SPSSODescriptor == nil {
+			o.Violation = h.V("metadata-error", "metadata variant %d: %v", vi, merr)
+			return o
+		}
+		var published [][]byte
+		for _, kd := range md.SPSSODescriptor.KeyDescriptors {
+			if kd.Use == "signing" {
+				published = append(published, kdCert(kd))
+			}
+		}
+		if len(published) != 1 || !bytes.Equal(published[0], want.DER()) {
+			o.Violation = h.V(fmt.Sprintf("published-signing-cert/signRequests:%v", sp.SignAuthnRequests), "metadata variant %d publishes %d signing certificate(s), none / not the one (%v) that verifies this signed %s (SignAuthnRequests=%v)", vi, len(published), want, c.Kind, sp.SignAuthnRequests)
+			return o
+		}
 	}
 	f := h.InspectSignature(doc.Root(), want.X509(), dsig.NewFakeClockAt(time.Date(2030, 1, 1, 0, 0, 0, 0, time.UTC)))
 	wantCount := 1
